@@ -307,6 +307,8 @@ func ReplayNative(repo, verif, replayPath string) (bool, string) {
 		return true, txt
 	case strings.HasSuffix(want, "/goroutine-panic") && strings.Contains(txt, "panic:"):
 		return true, txt
+	case strings.HasSuffix(want, "/non-termination") && (timedOut || strings.Contains(txt, "stack overflow") || strings.Contains(txt, "goroutine stack exceeds")):
+		return true, txt
 	case want == "deadlock" && (strings.Contains(txt, "deadlock") || timedOut):
 		return true, txt
 	case want == "fatal" && strings.Contains(txt, "fatal error:"):
